@@ -189,7 +189,7 @@ def draw_cell(draw, rule, tail, violating, closed=()):
         if ckeys and (len(common) >= 2 if V else True):
             on = [ckeys[0]] if V else list(common)
             if V or all(c in keyc or True for c in common):
-                step = {"op": "natural_join", "other": ot, "on": [[c, c] for c in on], "jointype": "inner", "check": True}
+                step = {"op": "natural_join", "other": ot, "on": [[c, c] for c in on], "jointype": "inner", "check": g.pick([True, "by"])}
     elif rule == "concat_different_columns":
         ot = g.pick(other_tables)
         ocols = [e[0] for e in case["tables"][ot]["cols"]]
@@ -213,9 +213,8 @@ def apply_step(cell):
         if step["op"] == "natural_join":
             ot = step["other"]
             other = TableDescription(table_name=ot, column_names=[e[0] for e in case["tables"][ot]["cols"]])
-            res = prefix.natural_join(
-                b=other, on=[a for a, _ in step["on"]], jointype=step["jointype"], check_all_common_keys_in_equi_spec=bool(step.get("check"))
-            )
+            ck = {"check_all_common_keys_in_by": True} if step.get("check") == "by" else {"check_all_common_keys_in_equi_spec": bool(step.get("check"))}
+            res = prefix.natural_join(b=other, on=[a for a, _ in step["on"]], jointype=step["jointype"], **ck)
         elif step["op"] == "concat_rows":
             if step["other"] == "__self__":
                 other = prefix
